@@ -131,8 +131,10 @@ func mutCase(t *vlib.T, kind string, ci int, pos int, src string) {
 		if !t.Owns(key) {
 			continue
 		}
-		t.Case(key, func() *vlib.Outcome {
-			return runSource(fam, s, mutCtxs, hasOpener(src), map[string]interface{}{"corpus": corpus[ci], "mutation": kind, "at": pos, "padded": padded, "source": src})
+		tcase(t, key, func() *vlib.Outcome {
+			return runSource(fam, s, mutCtxs, hasOpener(src), func() interface{} {
+				return map[string]interface{}{"corpus": corpus[ci], "mutation": kind, "at": pos, "padded": padded, "source": src}
+			})
 		})
 	}
 }
@@ -247,8 +249,8 @@ func runDeep(t *vlib.T) {
 		for _, g := range gens {
 			key := fmt.Sprintf("deep|%s|%d", g.name, n)
 			g, n := g, n
-			t.Case(key, func() *vlib.Outcome {
-				return runSource("deep-"+g.name, g.f(n), ctxs, true, map[string]interface{}{"generator": g.name, "depth": n})
+			tcase(t, key, func() *vlib.Outcome {
+				return runSource("deep-"+g.name, g.f(n), ctxs, true, func() interface{} { return map[string]interface{}{"generator": g.name, "depth": n} })
 			})
 		}
 	}
